@@ -29,6 +29,8 @@ struct FileCases {
     nums: Vec<(usize, usize)>,
     /// line range of the BDL text inside a .ctehexml (whole file for .cte)
     bdl_range: (usize, usize),
+    /// grey-box value substitutions in the XML part: (line, byte start, byte end, replacement literal)
+    lits: Vec<(usize, usize, usize, String)>,
 }
 
 const NUM_REPL: [&str; 5] = ["abc", "1e39", "-1", "99999999", "0"];
@@ -69,6 +71,46 @@ fn num_tokens(line: &str) -> Vec<(usize, usize)> {
         }
     }
     out
+}
+
+/// string literals of the XML-side parsers (hulc/src/ctehexml/**/*.rs), read from the current working tree:
+/// the alphabet of "kind"-like values the code branches on
+fn source_literals() -> &'static Vec<(String, Vec<String>)> {
+    static L: std::sync::OnceLock<Vec<(String, Vec<String>)>> = std::sync::OnceLock::new();
+    L.get_or_init(|| {
+        let mut out = vec![];
+        let root = format!("{}/hulc/src/ctehexml", repo_dir());
+        let mut stack = vec![root];
+        while let Some(d) = stack.pop() {
+            let Ok(rd) = std::fs::read_dir(&d) else { continue };
+            for e in rd.filter_map(|e| e.ok()) {
+                let p = e.path();
+                if p.is_dir() {
+                    stack.push(p.to_string_lossy().to_string());
+                } else if p.extension().map_or(false, |x| x == "rs") {
+                    let txt = std::fs::read_to_string(&p).unwrap_or_default();
+                    let mut lits: Vec<String> = vec![];
+                    for line in txt.lines() {
+                        let t = line.trim_start();
+                        if t.starts_with("//") {
+                            continue;
+                        }
+                        let mut parts = line.split('"');
+                        parts.next();
+                        while let Some(lit) = parts.next() {
+                            if lit.len() >= 2 && lit.len() <= 40 && !lit.contains('{') && !lit.contains('\\') && !lits.iter().any(|x| x == lit) {
+                                lits.push(lit.to_string());
+                            }
+                            parts.next();
+                        }
+                    }
+                    out.push((p.to_string_lossy().to_string(), lits));
+                }
+            }
+        }
+        out.sort();
+        out
+    })
 }
 
 impl FileCases {
@@ -121,11 +163,45 @@ impl FileCases {
                 nums.push((i, t));
             }
         }
-        FileCases { path: path.to_string(), fmt, lines, crlf, blocks, refs, nums, bdl_range }
+        let mut lits = vec![];
+        if fmt == Fmt::Ctehexml {
+            let srcs = source_literals();
+            let mut seen: std::collections::HashSet<(String, String, String)> = Default::default();
+            for (li, l) in lines.iter().enumerate() {
+                if li >= bdl_range.0 && li < bdl_range.1 {
+                    continue;
+                }
+                // text of an XML element on this line: <tag>text</tag>
+                let Some(a) = l.find('>') else { continue };
+                let Some(b) = l.rfind("</") else { continue };
+                if b <= a + 1 {
+                    continue;
+                }
+                let tag = l[..a].trim().trim_start_matches('<').to_string();
+                let text = &l[a + 1..b];
+                let mut pos = a + 1;
+                for tok in text.split(';') {
+                    let (ts, te) = (pos, pos + tok.len());
+                    pos = te + 1;
+                    let t = tok.trim().trim_matches('"');
+                    if t.len() < 2 {
+                        continue;
+                    }
+                    for (_, ls) in srcs.iter().filter(|(_, ls)| ls.iter().any(|x| x == t)) {
+                        for r in ls {
+                            if r != t && seen.insert((tag.clone(), t.to_string(), r.clone())) {
+                                lits.push((li, ts, te, r.clone()));
+                            }
+                        }
+                    }
+                }
+            }
+        }
+        FileCases { path: path.to_string(), fmt, lines, crlf, blocks, refs, nums, bdl_range, lits }
     }
 
     fn n_cases(&self) -> u64 {
-        (3 * self.lines.len() + self.blocks.len() + self.refs.len() + NUM_REPL.len() * self.nums.len()) as u64
+        (3 * self.lines.len() + self.blocks.len() + self.refs.len() + NUM_REPL.len() * self.nums.len() + self.lits.len()) as u64
     }
 
     fn describe(&self, k: u64) -> (String, Value) {
@@ -149,6 +225,10 @@ impl FileCases {
                 return ("rename-reference".into(), json!({"file": f, "edit": "rename reference", "line": l + 1, "name": nme}));
             }
             r -= self.refs.len();
+            if r >= NUM_REPL.len() * self.nums.len() {
+                let (l, a, b, rep) = &self.lits[r - NUM_REPL.len() * self.nums.len()];
+                return ("xml-value->source-literal".into(), json!({"file": f, "edit": "replace XML value by a literal the parser branches on", "line": l + 1, "old": &self.lines[*l][*a..*b], "new": rep}));
+            }
             let (l, t) = self.nums[r / NUM_REPL.len()];
             let rep = NUM_REPL[r % NUM_REPL.len()];
             (format!("number->{}", rep), json!({"file": f, "edit": "replace number", "line": l + 1, "token": t, "by": rep, "text": self.lines[l].chars().take(120).collect::<String>()}))
@@ -180,6 +260,11 @@ impl FileCases {
                     ls[*l] = ls[*l].replacen(nme.as_str(), &format!("{}_XX", nme), 1);
                 } else {
                     r -= self.refs.len();
+                    if r >= NUM_REPL.len() * self.nums.len() {
+                        let (l, a, b, rep) = &self.lits[r - NUM_REPL.len() * self.nums.len()];
+                        ls[*l] = format!("{}{}{}", &self.lines[*l][..*a], rep, &self.lines[*l][*b..]);
+                        return ls.join(if self.crlf { "\r\n" } else { "\n" });
+                    }
                     let (l, t) = self.nums[r / NUM_REPL.len()];
                     let rep = NUM_REPL[r % NUM_REPL.len()];
                     let toks = num_tokens(&self.lines[l]);
@@ -415,8 +500,17 @@ pub fn monitor_sweep(ctx: &Ctx) -> u64 {
             continue;
         }
         let n = f.lines.len() as u64;
-        for b in 0..f.blocks.len() as u64 {
-            idxs.push(st.offsets[fi] + 3 * n + b);
+        let quick_file = f.path.ends_with("cubo.ctehexml") || f.path.ends_with("e4h_medianeras.ctehexml");
+        if ctx.tier == Tier::Thorough {
+            for b in 0..f.blocks.len() as u64 {
+                idxs.push(st.offsets[fi] + 3 * n + b);
+            }
+        }
+        if ctx.tier == Tier::Thorough || quick_file {
+            let base = st.offsets[fi] + 3 * n + f.blocks.len() as u64 + f.refs.len() as u64 + (NUM_REPL.len() * f.nums.len()) as u64;
+            for k in 0..f.lits.len() as u64 {
+                idxs.push(base + k);
+            }
         }
     }
     let count = std::sync::atomic::AtomicU64::new(0);
@@ -426,7 +520,7 @@ pub fn monitor_sweep(ctx: &Ctx) -> u64 {
         if v["stdout_bytes"].as_u64().unwrap_or(0) > 0 {
             let fi = st.offsets.partition_point(|o| *o <= idx) - 1;
             let (_, d) = st.files[fi].describe(idx - st.offsets[fi]);
-            ctx.violation("library-writes-to-stdout:parse", &format!("parsing/conversion wrote {} bytes to standard output", v["stdout_bytes"]), json!({"case": d}));
+            ctx.violation("library-writes-to-stdout:parse", &format!("parsing/conversion wrote {} bytes to standard output (starts {:?})", v["stdout_bytes"], v["stdout_excerpt"].as_str().unwrap_or("").chars().take(50).collect::<String>()), json!({"case": d}));
         }
         true
     });
